@@ -924,6 +924,15 @@ class Explorer:
             return bool(c)
         return self._check(z3.Not(c.z)) == z3.unsat
 
+    def diverse_witness(self):
+        """a model of the path condition, preferably with pairwise distinct, positive integer inputs"""
+        ints = [v for n, v in self.vars.items() if v.sort() == z3.IntSort() and not self.small.get(n, False)]
+        if len(ints) >= 2:
+            r = self._check(z3.Distinct(*ints), *[v > 0 for v in ints])
+            if r == z3.sat:
+                return self._model_dict(self.solver.model())
+        return self.witness()
+
     def witness(self, extra=None):
         if extra is not None and isinstance(extra, SBool):
             r = self._check(extra.z)
@@ -989,6 +998,12 @@ class Explorer:
             except BaseException:
                 out["model"] = None
             self.stats.raised += 1
+        else:
+            if getattr(self, "sample_witness", False) and self.results and all(r[1] == "ok" for r in self.results):
+                try:
+                    out["witness"] = self.diverse_witness()
+                except BaseException:
+                    out["witness"] = None
         finally:
             _CUR = None
             self.solver.pop()
